@@ -137,7 +137,7 @@ func (p *Prog) syscallDiscipline(r *Report, rule string, fname string, f *ssa.Fu
 			if errV == nil {
 				bad = "the error result is discarded (bound to _ or never extracted)"
 			} else {
-				ek := exprKey(errV)
+				ek := sk(errV)
 				for _, pt := range paths {
 					if !pathHas(pt, c) {
 						continue
@@ -178,7 +178,7 @@ func (p *Prog) syscallDiscipline(r *Report, rule string, fname string, f *ssa.Fu
 			if cntV == nil {
 				bad = "the byte count is discarded (bound to _): a short transfer is reported as success"
 			} else {
-				ck := exprKey(cntV)
+				ck := sk(cntV)
 				for _, pt := range paths {
 					if !pathHas(pt, c) {
 						continue
@@ -236,7 +236,7 @@ func checkC11(p *Prog, r *Report) {
 	bs := fmt.Sprint(dc.blockSize)
 	cs := countSpec{expected: func(c *ssa.Call, name string) []string {
 		if name == "Pread" || name == "Pwrite" {
-			return []string{bs, "len(" + exprKey(c.Call.Args[1]) + ")"}
+			return []string{bs, "len(" + sk(c.Call.Args[1]) + ")"}
 		}
 		return nil
 	}}
@@ -265,7 +265,7 @@ func checkC11(p *Prog, r *Report) {
 		if f := im.Methods["ReadTo"]; f != nil {
 			p.instrs(f, func(b *ssa.BasicBlock, i int, in ssa.Instruction) {
 				if c, name, ok := unixCall(in); ok && name == "Pread" {
-					fdKey = exprKey(c.Call.Args[0])
+					fdKey = sk(c.Call.Args[0])
 				}
 			})
 		}
@@ -288,7 +288,7 @@ func checkC11(p *Prog, r *Report) {
 				found := false
 				for _, b := range pt.Blocks {
 					for _, in := range b.Instrs {
-						if c, name, ok := unixCall(in); ok && name == spec.sys && exprKey(c.Call.Args[0]) == fdKey {
+						if c, name, ok := unixCall(in); ok && name == spec.sys && sk(c.Call.Args[0]) == fdKey {
 							found = true
 						}
 					}
@@ -353,7 +353,7 @@ func (dc *diskCtx) ruleOpenPath(r *Report, f *ssa.Function) {
 	acc, _ := unixConst(p, "O_ACCMODE")
 	r.Check("R11c", f.Name()+" open flags", instrPos(open), okc && flags&oc != 0 && flags&acc == orw && flags&otr == 0,
 		fmt.Sprintf("flags=%#x: need O_CREAT and O_RDWR, and must not contain O_TRUNC (would erase the image on reopen)", flags))
-	fdKey := exprKey(open) + "#0"
+	fdKey := sk(open) + "#0"
 	// (ii) per successful path
 	paths, ok := p.enumPaths(f, 1, 20000)
 	if !ok {
@@ -384,11 +384,11 @@ func (dc *diskCtx) ruleOpenPath(r *Report, f *ssa.Function) {
 		for _, b := range pt.Blocks {
 			for _, in := range b.Instrs {
 				if c, name, ok := unixCall(in); ok && name == "Ftruncate" {
-					lk := stripConvs(exprKey(c.Call.Args[1]))
-					if exprKey(c.Call.Args[0]) == fdKey && (lk == want1 || lk == want2) {
+					lk := stripConvs(sk(c.Call.Args[1]))
+					if sk(c.Call.Args[0]) == fdKey && (lk == want1 || lk == want2) {
 						trunc = true
 					} else {
-						bad = fmt.Sprintf("ftruncate(%s, %s): must resize the opened descriptor to %s bytes", exprKey(c.Call.Args[0]), exprKey(c.Call.Args[1]), want1)
+						bad = fmt.Sprintf("ftruncate(%s, %s): must resize the opened descriptor to %s bytes", sk(c.Call.Args[0]), sk(c.Call.Args[1]), want1)
 					}
 				}
 			}
@@ -441,9 +441,9 @@ func (dc *diskCtx) ruleOpenPath(r *Report, f *ssa.Function) {
 		}
 		switch bt.Kind() {
 		case types.Int:
-			r.Check("R11c", f.Name()+" stores descriptor in "+fld, instrPos(in), exprKey(st.Val) == fdKey, "descriptor field is set to "+exprKey(st.Val)+", must be the opened descriptor")
+			r.Check("R11c", f.Name()+" stores descriptor in "+fld, instrPos(in), sk(st.Val) == fdKey, "descriptor field is set to "+sk(st.Val)+", must be the opened descriptor")
 		case types.Uint64:
-			r.Check("R11c", f.Name()+" stores size in "+fld, instrPos(in), st.Val == ssa.Value(nb), "size field is set to "+exprKey(st.Val)+", must be the requested number of blocks")
+			r.Check("R11c", f.Name()+" stores size in "+fld, instrPos(in), st.Val == ssa.Value(nb), "size field is set to "+sk(st.Val)+", must be the requested number of blocks")
 		}
 	})
 	if nStore == 0 {
